@@ -18,6 +18,9 @@ import (
 
 const kfDupLeaves = "assemble-taproot-tree-with-duplicate-leaves"
 
+// dupLeavesMet: the duplicate-leaf finding was observed in this process.
+var dupLeavesMet bool
+
 // genLeaf draws a tap leaf: version 0xc0 mostly, otherwise another even value
 // (0x50 excluded: it would read as an annex); script lengths around the
 // compact-size boundaries.
@@ -292,7 +295,9 @@ func TestTaprootAssemble(t *testing.T) {
 		d, pt, internalKey := genInternalKey(t)
 		internalX := secp.Bytes32(pt.X)
 		hb = append(hb, internalX)
-		if dup && ev.IsKnown("C16", kfDupLeaves) {
+		if dup && dupLeavesMet && ev.IsKnown("C16", kfDupLeaves) {
+			// the listed finding has been re-confirmed (and printed) in this
+			// process: further repeated-leaf trees are excluded by construction
 			recTapAsm.Excluded()
 			return
 		}
@@ -356,6 +361,8 @@ func TestTaprootAssemble(t *testing.T) {
 			if !bytes.Equal(proof.InclusionProof, concatPath(path)) {
 				obs := fmt.Sprintf("%s: InclusionProof = %x, reference merkle path %x", w, proof.InclusionProof, concatPath(path))
 				if dup && recTapAsm.Known(kfDupLeaves, obs) {
+					dupLeavesMet = true
+					recTapAsm.Excluded()
 					return
 				}
 				t.Fatal(obs)
